@@ -5,10 +5,10 @@ import basix.ufl
 from ufl import Coefficient, FacetNormal, FunctionSpace, Mesh, SpatialCoordinate, TestFunction, avg, dS, grad, inner, jump
 
 forms = []
-for cell in ("triangle", "quadrilateral"):
-    mesh = Mesh(basix.ufl.element("Lagrange", cell, 1, shape=(2,)))
+for cell, gd in (("triangle", 2), ("quadrilateral", 2), ("tetrahedron", 3), ("hexahedron", 3)):
+    mesh = Mesh(basix.ufl.element("Lagrange", cell, 1, shape=(gd,)))
     V = FunctionSpace(mesh, basix.ufl.element("Lagrange", cell, 1))
-    W = FunctionSpace(mesh, basix.ufl.element("Lagrange", cell, 1, shape=(2,)))
+    W = FunctionSpace(mesh, basix.ufl.element("Lagrange", cell, 1, shape=(gd,)))
     f, g, h = Coefficient(V), Coefficient(V), Coefficient(W)
     v = TestFunction(V)
     x = SpatialCoordinate(mesh)
